@@ -71,7 +71,8 @@ class C18(Machine):
                    "complex_impedances", "series_law_checked",
                    "parallel_law_checked", "aliased_update",
                    "megaohm_circuit", "retyped_real_complex",
-                   "two_networks_interleaved", "resistances_on_non_links")
+                   "two_networks_interleaved", "resistances_on_non_links",
+                   "narrow_integer_resistances")
     real_vs_stub = {"real": ["ResNetwork (constructor, update_resistances, "
                              "all resistive queries, compiled VCFB/ECFB "
                              "kernels)"], "stub": []}
@@ -99,7 +100,11 @@ class C18(Machine):
         cfg = {"lru": lru, "complex": cplx, "ints": a.random() < 0.3,
                "rseed": a.randrange(10 ** 9),
                # milli-ohm ... mega-ohm circuits
-               "mag": a.choice((1.0, 1.0, 1.0, 1e-3, 1e3, 1e6, 1e7)),
+               "mag": a.choice((1.0, 1.0, 1.0, 1e-3, 1e3, 1e6, 1e7, 1e-9)),
+               # resistance tables in narrow integer types, or a bare
+               # boolean link matrix (every link 1 Ohm)
+               "rdtype": a.choice((None,) * 6 + ("int8", "uint8", "int16",
+                                                  "bool")),
                "derive_adjacency": a.random() < 0.3,
                "extra_entries": a.random() < 0.3,
                "n_objects": a.choice((1, 1, 2))}
@@ -151,6 +156,12 @@ class C18(Machine):
             o.n = o.A.shape[0]
             o.cplx = cfg["complex"]
             Rm = resist(o.A, cfg["rseed"] + 31 * k, o.cplx, cfg["ints"], mag)
+            rdt = cfg.get("rdtype") if (cfg["ints"] and not o.cplx
+                                        and mag == 1.0) else None
+            if rdt == "bool":
+                Rm = (o.A != 0).astype(float)
+            elif rdt:
+                Rm = Rm * 12.0            # whole numbers up to 108
             o.ref = Circuit(o.A, Rm)
             if cfg.get("extra_entries") and not cfg.get("derive_adjacency"):
                 # resistance values also for node pairs that are not links:
@@ -161,6 +172,9 @@ class C18(Machine):
                 R.probe("resistances_on_non_links")
             o.extra = Rm * (o.A == 0)
             o.held = Rm.copy()            # the caller's own array
+            if rdt and not np.any(o.extra):
+                o.held = Rm.astype(rdt)
+                R.probe("narrow_integer_resistances")
             # constructor paths: adjacency given, or derived from the
             # non-zero resistances
             if cfg.get("derive_adjacency"):
